@@ -87,11 +87,11 @@ open NV.Gen.C12 in
     CMD_IN_BUF cleared when nothing complete is left, second cursor step, NOECHO handling, last_time -
     the order `getUserCommand` mirrors -/
 theorem gucOrder_spec : gucOrder =
-    ["DeclStmt:s_next_user", "DeclStmt:", "DeclStmt:ip", "DeclStmt:user_command", "DeclStmt:",
+    ["DeclStmt:s_next_user", "DeclStmt:ip", "DeclStmt:user_command",
      "ForStmt:all_users,first_cmd_in_buf,flush_message,iflags,ip,max_users,message_length,ob,s_next_user,user_command",
      "IfStmt:ip,user_command", "BinaryOperator:command_giver,ip,ob", "CallExpr:telnet_neg,user_command",
      "CallExpr:ip,next_cmd_in_buf", "IfStmt:cmd_in_buf,iflags,ip", "IfStmt:max_users,s_next_user",
-     "IfStmt:add_message,command_giver,iflags,ip", "BinaryOperator:ip,last_time", "ReturnStmt:"] := rfl
+     "IfStmt:add_message,command_giver,iflags,ip", "BinaryOperator:ip,last_time"] := rfl
 
 open NV.Gen.C12 in
 /-- body of the scan loop: fetch the slot under the cursor, flush pending output, the CMD_IN_BUF / first_cmd_in_buf /
@@ -104,10 +104,9 @@ open NV.Gen.C12 in
 /-- process_user_command(): one `if ((user_command = get_user_command ()))` block holding all the processing, then
     the "no more commands" exit -/
 theorem pucOrder_spec : pucOrder =
-    ["DeclStmt:user_command", "DeclStmt:", "DeclStmt:", "DeclStmt:command_giver", "DeclStmt:ip", "DeclStmt:",
-     "BinaryOperator:",
+    ["DeclStmt:user_command", "DeclStmt:command_giver", "DeclStmt:ip",
      "IfStmt:apply,call_function_interactive,command_giver,current_interactive,get_user_command,iflags,ip,print_prompt,process_command,user_command",
-     "BinaryOperator:", "BinaryOperator:command_giver", "BinaryOperator:current_interactive", "ReturnStmt:"] := rfl
+     "BinaryOperator:command_giver", "BinaryOperator:current_interactive"] := rfl
 
 /-! ### finite maps -/
 
